@@ -54,8 +54,8 @@ class LineageWorld(MQWorld):
         super().__init__(scenario, choice, **kw)
         self.lineage_raw = []
 
-    def install(self):
-        super().install()
+    def _install_seams(self):
+        MQWorld.install(self)
         lin = P.mod('openfilter.observability.lineage')
         b = self.patcher.bind
         b(lin, 'threading', SimThreading(self.sched, inline_threads=False))
@@ -63,6 +63,34 @@ class LineageWorld(MQWorld):
         b(lin, 'datetime', make_datetime_class(self.clock))
         b(lin, 'uuid', _SimUuid(self))
         self._lin = lin
+
+    def install_line_preemption(self):
+        """Thorough tier: every source line of observability/lineage.py (and of Filter.exit) becomes a pre-emption point,
+        so that the run thread and the heartbeat thread interleave at line granularity, not only at Event/Lock/emit."""
+        import sys
+        sched = self.sched
+        lin_file = self._lin.__file__
+        stats = self.ostats
+
+        def local(frame, event, arg):
+            if event == 'line':
+                cur = sched.current
+                if cur is not None and not cur.is_main and cur.proc.alive and not sched.aborting:
+                    stats['c18_line_preemption_points'] += 1
+                    sched.block(label='ln')
+            return local
+
+        def tracer(frame, event, arg):
+            if event == 'call' and frame.f_code.co_filename == lin_file:
+                return local
+            return None
+
+        sched.on_task_start = lambda t: sys.settrace(tracer)
+
+    def install(self):
+        self._install_seams()
+        if (self.sc.get('lineage') or {}).get('line_preempt'):
+            self.install_line_preemption()
 
     def prepare_proc(self, proc, spec):
         lcfg = self.sc.get('lineage') or {}
